@@ -147,8 +147,29 @@ SCHED_SRC = {
                  "  end subroutine s\nend module s_mod\n",
 }
 
+# a file that holds only intermediate items (a type definition and the binding chain through it) and no procedure
+SCHED_SRC2 = {
+    'driver.F90': "subroutine driver\n  use types_mod, only: t\n  implicit none\n  type(t) :: obj\n"
+                  "  call obj%inner%run()\nend subroutine driver\n",
+    'types_mod.F90': "module types_mod\n  use impl_mod, only: inner_t\n  implicit none\n  type :: t\n"
+                     "    type(inner_t) :: inner\n  end type t\nend module types_mod\n",
+    'impl_mod.F90': "module impl_mod\n  implicit none\n  type :: inner_t\n    integer :: val\n  contains\n"
+                    "    procedure, nopass :: run => impl\n  end type inner_t\ncontains\n  subroutine impl()\n"
+                    "  end subroutine impl\nend module impl_mod\n",
+}
+
 
 def replay_scheduler(inp):
+    for sources, cfg, imports in ((SCHED_SRC, {'driver': {'role': 'driver'}, 'r': {'ignore': ['q']}}, False),
+                                  (SCHED_SRC2, {'driver': {'role': 'driver'}}, True)):
+        r = _replay_scheduler_project(sources, cfg, imports)
+        if r.get('reproduced'):
+            r['project'] = sorted(sources)
+            return r
+    return {'reproduced': False}
+
+
+def _replay_scheduler_project(sources, routines_cfg, enable_imports):
     """a small project (an ignored routine sharing a file with an active one; a diamond of callers) processed by probe
     transformations for every manifest combination; checked against the scheduler graph's own item flags and edges"""
     from loki import Scheduler, SchedulerConfig, Transformation, ProcedureItem
@@ -156,11 +177,11 @@ def replay_scheduler(inp):
     from loki.frontend import FP
     tmp = Path(tempfile.mkdtemp(prefix='c22_', dir='/var/tmp'))
     try:
-        for name, src in SCHED_SRC.items():
+        for name, src in sources.items():
             (tmp / name).write_text(src)
         config = SchedulerConfig.from_dict({
-            'default': {'mode': 'idem', 'role': 'kernel', 'expand': True, 'strict': True, 'enable_imports': False},
-            'routines': {'driver': {'role': 'driver'}, 'r': {'ignore': ['q']}}})
+            'default': {'mode': 'idem', 'role': 'kernel', 'expand': True, 'strict': True, 'enable_imports': enable_imports},
+            'routines': routines_cfg})
         for file_graph in (False, True):
             for proc_ignored in (False, True):
                 for reverse in (False, True):
@@ -181,9 +202,10 @@ def replay_scheduler(inp):
                             item_filter = (ProcedureItem,)
 
                             def __init__(self):
-                                self.calls, self.file_items = [], {}
+                                self.calls, self.file_items, self.files = [], {}, []
 
                             def transform_file(self, sourcefile, **kw):
+                                self.files.append(sourcefile.path.name)
                                 self.file_items[sourcefile.path.name] = tuple(i.name for i in kw.get('items') or ())
                             plan_file = transform_file
 
@@ -205,6 +227,13 @@ def replay_scheduler(inp):
                             leak = {f: [n for n in names if n in ignored] for f, names in probe.file_items.items()}
                             if any(leak.values()):
                                 return {'reproduced': True, 'setting': setting, 'ignored_items_passed_to_transform_file': leak}
+                        if file_graph:
+                            # file-graph processing visits each file containing a selected item once, and no other
+                            want_files = sorted({Path(it.source.path).name for it in procs
+                                                 if proc_ignored or it.name not in ignored})
+                            if sorted(probe.files) != want_files:
+                                return {'reproduced': True, 'setting': setting, 'files_visited': sorted(probe.files),
+                                        'files_containing_a_selected_item': want_files}
                         if not file_graph:
                             pos = {n: k for k, n in enumerate(got)}
                             for a, b in edges:
